@@ -35,9 +35,9 @@ T = {
  'C07': ('model_checking', 'explicit-state breadth-first search over histories of real VMF/Entity operations; index-vs-scan invariant evaluated in every state',
          'Every operation sequence up to the depth bound over an alphabet of ~40 entity/map operations (mixed-case names, all five mutation paths, cross-map copies, iteration while mutating) is executed on real VMF objects; in every reachable state by_class / by_target / search() are compared with a scan of the entity list.',
          'depth bound; names/classes from a 3-5 symbol alphabet', '3/C07'),
- 'C08': ('model_checking', 'explicit-state breadth-first search over allocation/release histories (including explicit garbage-collection steps) with the per-kind uniqueness invariant in every state',
+ 'C08': ('model_checking', 'explicit-state breadth-first search over allocation/release histories (including explicit garbage-collection steps) with the per-kind uniqueness invariant and its inductive half (every ID held in the map is marked used in its allocator) in every state; every short history on maps that start with 1100+ consecutive IDs',
          'Histories of creations with desired IDs, copies, removals, explicit handle drops + gc, parses of documents with colliding IDs and fixup edits are enumerated to a depth bound on real objects; in every state IDs of objects in the map are pairwise distinct positive ints per kind.',
-         'depth bound; GC made an explicit operation', '3/C08'),
+         'depth bound (full alphabet, plus a 12-operation core alphabet one level deeper); GC made an explicit operation', '3/C08'),
  'C09': ('exploration', 'exhaustive enumeration of generated objects x every single in-place mutation of every reachable mutable sub-object on either side of a copy',
          'For every generated object the copy must export identically (modulo IDs) and share no mutable object with its source; then each reachable mutable sub-object is mutated once, on each side, and the other side must export byte-identically.',
          'generic object walker; one mutation step after the copy', '3/C09'),
@@ -49,7 +49,7 @@ T = {
          'float32-representable values; deviation bound d', '3/C11'),
  'C12': ('fault_enumeration', 'exhaustive crash-point, single-fault and two-writer interleaving enumeration over the intercepted file-system operations of the real AtomicWriter / BSP.save',
          'Every prefix of the operation log (kill), every single injected OSError at every operation, body exceptions at every write, and all interleavings of two writers under a baton scheduler are explored on a real tmpfs directory; destination is old or new, never a mixture, and no temp file survives a handled failure.',
-         'process-kill crash model (page cache survives); operations intercepted at io.open/os.* level', '3/C12'),
+         'process-kill crash model (page cache survives); operations intercepted at io.open / os.mkdir, replace, unlink, rename, remove, open, fsync; the all-interleavings pass has a ceiling of 20000 schedules per configuration (largest on the current tree: 6410), above which the 2-preemption pass is completed and the cap reported', '3/C12'),
  'C13': ('model_checking', 'explicit-state breadth-first search over VPK operation histories x archive configurations against a dict reference model and an independent directory decoder',
          'Every history up to the depth bound of add/overwrite/delete/write_dirfile/reopen on real VPK files is compared after each reopen with a dict model (names, bytes, CRC verification) and an independent decoder of the directory tree.',
          'depth bound; size menu crossing the preload limit and 64 KiB', '3/C13'),
